@@ -255,6 +255,57 @@ func (a *Analysis) CheckC19(rep *Report) {
 
 // lockDiscipline walks one path with a lock-state machine; returns the number of accesses seen.
 func (a *Analysis) lockDiscipline(rep *Report, g *guardedState, name string, fn *ssa.Function, p *Path) int {
+	// the ways through the path: an ALT (the outcomes of an inlined callee that differ in nothing the caller sees – a
+	// `put` that returns early when the entry exists and stores otherwise) is one of its arms, not all of them in a row
+	type lin struct {
+		events []*Event
+		inLoop map[*Event]bool
+	}
+	lins := []lin{{nil, map[*Event]bool{}}}
+	var expand func(evs []*Event, loop bool)
+	expand = func(evs []*Event, loop bool) {
+		for _, e := range evs {
+			if e.Kind == EvAlt && len(e.Iter) > 1 && len(lins)*len(e.Iter) <= 64 {
+				base := lins
+				var out []lin
+				for _, arm := range e.Iter {
+					lins = nil
+					for _, b := range base {
+						il := map[*Event]bool{}
+						for k, v := range b.inLoop {
+							il[k] = v
+						}
+						lins = append(lins, lin{append(append([]*Event{}, b.events...), e), il})
+					}
+					for i := range lins {
+						lins[i].inLoop[e] = loop
+					}
+					expand(arm.Events, loop)
+					out = append(out, lins...)
+				}
+				lins = out
+				continue
+			}
+			for i := range lins {
+				lins[i].events = append(lins[i].events, e)
+				lins[i].inLoop[e] = loop
+			}
+			for _, arm := range e.Iter {
+				expand(arm.Events, loop || e.Kind == EvRep)
+			}
+		}
+	}
+	expand(p.Events, false)
+	n := 0
+	for _, l := range lins {
+		if k := a.lockDisciplineLin(rep, g, name, fn, p, l.events, l.inLoop); k > n {
+			n = k
+		}
+	}
+	return n
+}
+
+func (a *Analysis) lockDisciplineLin(rep *Report, g *guardedState, name string, fn *ssa.Function, p *Path, events []*Event, inLoop map[*Event]bool) int {
 	held := map[string]string{} // mutex base -> "W" | "R"
 	sections := 0               // critical sections that contained an access
 	curHasAccess := false
@@ -298,19 +349,6 @@ func (a *Analysis) lockDiscipline(rep *Report, g *guardedState, name string, fn 
 		rep.Ob("Q7-one-key-per-operation", name+":"+e.Mode, k == firstKey, a.P.Pos(e.Pos), "the operation accesses the registry under "+k+" here and under "+firstKey+" at "+firstKeyAt+": what it checks is not what it changes")
 	}
 	extraWritten := false
-	var events []*Event
-	inLoop := map[*Event]bool{}
-	var flat func(evs []*Event, loop bool)
-	flat = func(evs []*Event, loop bool) {
-		for _, e := range evs {
-			events = append(events, e)
-			inLoop[e] = loop
-			for _, arm := range e.Iter {
-				flat(arm.Events, loop || e.Kind == EvRep)
-			}
-		}
-	}
-	flat(p.Events, false)
 	for _, e := range events {
 		switch e.Kind {
 		case EvLock:
